@@ -327,6 +327,13 @@ def queries(root):
             qs.append(("count " + ">>".join(p), "count (%s)" % sqf_path(p), float(len(node.order))))
             for i, nm in enumerate(node.order):
                 qs.append(("select %d %s" % (i, ">>".join(p)), "configName ((%s) select %d)" % (sqf_path(p), i), nm))
+        elif not node.deleted:
+            # every deleted name was defined again later: what the class holds is unambiguous, only the slot of a
+            # re-defined entry is not (first or second declaration) - the enumeration is compared as a set
+            qs.append(("count " + ">>".join(p), "count (%s)" % sqf_path(p), float(len(node.order))))
+            qs.append(("enumerated-names " + ">>".join(p),
+                       'call { private _r = []; for "_k" from 0 to (count (%s)) - 1 do { _r pushBack (configName ((%s) select _k)) }; _r sort true; _r }' % (sqf_path(p), sqf_path(p)),
+                       sorted(node.order)))
     return qs
 
 
